@@ -2,5 +2,5 @@
 # seedcheck.sh <patch.diff> <PROP>... : apply a seeded change to /repo, run the checks, undo it straight afterwards
 patch=$1; shift
 git -C ${VERIF_REPO:-/repo} apply $patch || { echo "patch does not apply"; exit 9; }
-for p in "$@"; do VERIF_EVIDENCE_DIR=${VERIF_EVIDENCE_DIR:-/tmp/seed_evidence} /verif/check $p | grep -E "VIOLATION|failed obl|UNDECIDED|^OK|KNOWN" ; echo "rc=$?"; done
+for p in "$@"; do VERIF_EVIDENCE_DIR=${VERIF_EVIDENCE_DIR:-/tmp/seed_evidence} ${VERIF_HOME:-/verif}/check $p | grep -E "VIOLATION|failed obl|UNDECIDED|^OK|KNOWN" ; echo "rc=$?"; done
 git -C ${VERIF_REPO:-/repo} checkout -- .
